@@ -15,6 +15,7 @@ import (
 	"context"
 	"errors"
 	"fmt"
+	"strings"
 	"sync"
 
 	sgbucket "github.com/couchbase/sg-bucket"
@@ -41,6 +42,7 @@ var ErrInjected = errors.New("vstore: injected storage error")
 type OpRecord struct {
 	Seq     int    `json:"seq"`
 	Thread  int    `json:"thread"`
+	Gid     int64  `json:"-"`
 	Op      string `json:"op"`
 	Key     string `json:"key"`
 	Write   bool   `json:"write"`
@@ -107,7 +109,7 @@ func (h *Hooks) before(op, key string, write bool) opCtx {
 		inj = None
 	}
 	h.mu.Lock()
-	h.Log = append(h.Log, OpRecord{Seq: seq, Thread: vsched.ThreadID(), Op: op, Key: key, Write: write})
+	h.Log = append(h.Log, OpRecord{Seq: seq, Thread: vsched.ThreadID(), Gid: vsched.GoID(), Op: op, Key: key, Write: write})
 	idx := len(h.Log) - 1
 	if inj != None {
 		h.Log[idx].Inject = inj.String()
@@ -638,10 +640,27 @@ func (d *DataStore) WriteUpdateWithXattrs(ctx context.Context, k string, xattrKe
 		return upd, nil
 	}
 	casOut, err := d.DataStore.WriteUpdateWithXattrs(ctx, k, xattrKeys, exp, previous, opts, wrapped)
+	for isRosmarTombstoneCasArtifact(err) {
+		// Store-model adaptation. rosmar evaluates "delete the body of a document that is already a tombstone"
+		// before it compares the CAS, and reports it as a missing-key error, so its update loop gives up. The
+		// caller only asks to delete a body when the snapshot it read had one, so the document was tombstoned by
+		// someone else after that read: on Couchbase Server this is a CAS mismatch, and the production update
+		// loop (base.Collection.WriteUpdateWithXattrs) retries on both CAS mismatch and key-not-found. Re-enter the
+		// loop so that the caller sees the retry it would see in production.
+		if lastSet {
+			last.fin(errors.New("cas retry (tombstoned concurrently)"), false)
+			lastSet = false
+		}
+		casOut, err = d.DataStore.WriteUpdateWithXattrs(ctx, k, xattrKeys, exp, nil, opts, wrapped)
+	}
 	if lastSet {
 		if e2 := last.post(err); e2 != err {
 			return 0, e2
 		}
 	}
 	return casOut, err
+}
+
+func isRosmarTombstoneCasArtifact(err error) bool {
+	return err != nil && strings.Contains(err.Error(), "Calling deleteBody=true when the document is a tombstone")
 }
